@@ -308,6 +308,8 @@ def trace_cases(rng, n_cases):
             a = rng.randint(0, len(cols))
             ops.append(f"cols {a} {rng.randint(a, len(cols))}")
         ops.append("sel " + ",".join(str(rng.randrange(n)) for _ in range(rng.choice([2, 2, 3]))))
+        if rng.random() < 0.2:
+            ops.append("icol " + rng.choice(["", "+", "-"]) + str(rng.randrange(max(1, len(cols)))))
         ri, si = (0, 1) if n == 2 or rng.random() < 0.5 else tuple(rng.sample(range(n), 2))
         if n == 2 and rng.random() < 0.2:
             ri, si = 1, 0
@@ -949,6 +951,11 @@ def run_impl(case):
                 back = align.read_alignment_from_cigar("" if w[1] == "_" else w[1], int(w[2]), ref, ref)
                 return "ok " + _tr(back.trace.tolist())
             out.append(_fmt(f_read))
+        elif w[0] == "icol":
+            def f_icol():
+                r = ali[np.int64(int(w[1]))] if w[1].startswith("+") else ali[int(w[1])]
+                return "ok " + str(r.trace.tolist())
+            out.append(_fmt(f_icol))
         elif w[0] == "tset":
             def f_tset():
                 ali.trace[int(w[1]), int(w[2])] = -1 if w[3] == "-" else int(w[3])
@@ -1399,6 +1406,13 @@ def _oracle_trace(case):
             v.append(("C11/strings/__str__", f"{cols} {strs} -> {str(ali)!r}, expected {exp_str!r}"))
     if len(ali) != ncol or not (ali == _mkali(list(alphs), strs, cols)):
         v.append(("C11/alignment/len-or-eq", f"{cols} {strs}: len {len(ali)}, equal to an identical alignment: {ali == _mkali(list(alphs), strs, cols)}"))
+    for ix in ([0, -1, np.int64(0), np.uint8(0)] if ncol else [0]):
+        try:
+            r1 = ali[ix]
+            v.append(("C11/alignment/integer-index-accepted", f"{cols}: alignment[{ix!r}] returned an Alignment with trace {r1.trace.tolist()}"))
+            break
+        except IndexError:
+            pass
     try:
         iter(ali)
         v.append(("C11/alignment/iterable", f"iter(alignment) did not raise"))
